@@ -170,6 +170,7 @@ def programs(tier: str) -> list[dict]:
         progs += list(P.fam_einsum())
         progs += list(P.fam_csr(rng, 200))
     progs += list(P.fam_concat_empty(with_user=False))
+    progs += list(P.fam_advanced_patterns())
     # de-duplicate ids, tag every third instance with user tags on node and axis
     seen, out = set(), []
     for k, p in enumerate(progs):
